@@ -310,7 +310,55 @@ pub fn child(args: &[String]) -> i32 {
         }
         check_log(&dir, "written-on-after-pruning", &mut out, &[]);
     }
+    // ---- a reader at work while the log is being written and rotated (a session asking for metrics, the supervisor
+    // answering a catch-up): afterwards every record the writer was given must be in some file
+    let mut raced = 0u64;
+    if per_file <= 2000 {
+        let rounds = if thorough { 60 } else { 12 };
+        for r in 0..rounds {
+            fresh(&dir);
+            let stop = std::sync::atomic::AtomicBool::new(false);
+            let mut written: Vec<(u64, u64, u64, u8)> = vec![];
+            std::thread::scope(|sc| {
+                let (stop2, dir2) = (&stop, dir.clone());
+                sc.spawn(move || {
+                    nundb::verif::set_dir(Some(dir2));
+                    let mut i = 0u64;
+                    while !stop2.load(std::sync::atomic::Ordering::Acquire) {
+                        let _ = std::panic::catch_unwind(|| match i % 3 {
+                            0 => {
+                                let _ = Oplog::last_op_time();
+                            }
+                            1 => {
+                                let _ = read_operations_since(1);
+                            }
+                            _ => {
+                                let _ = nundb::disk_ops::get_op_log_size();
+                            }
+                        });
+                        i += 1;
+                    }
+                });
+                let mut stream = Oplog::get_log_file_append_mode();
+                let mut t = 5000u64 + r as u64;
+                let n = (per_file as usize * 12).clamp(200, 3000);
+                for j in 0..n {
+                    t += 1 + (j % 3) as u64;
+                    let (wdb, wkey, wop) = (1 + (j % 2) as u64, 100 + j as u64, (j % 4) as u8);
+                    let _ = Oplog::try_write_op_log(&mut stream, Some(wdb), wkey, &op_of(wop), t);
+                    written.push((t, wdb, wkey, op_of(wop).to_u8()));
+                }
+                drop(stream);
+                stop.store(true, std::sync::atomic::Ordering::Release);
+            });
+            raced += 1;
+            if conservation(&dir, &written, 0, "written-while-a-reader-was-at-work", &mut out).is_none() {
+                break;
+            }
+        }
+    }
     let doc = json!({
+        "rounds_written_while_a_reader_was_at_work": raced,
         "queries": out.queries, "logs": out.logs, "shapes": out.shapes.iter().cloned().collect::<Vec<_>>(), "max_files": out.max_files, "prune_checks": out.prune_checks,
         "problems": out.problems.iter().map(|(s, r)| json!({"sig": s, "replay": r})).collect::<Vec<_>>(), "samples": out.samples,
     });
